@@ -96,3 +96,7 @@ def simplex_within_ranges(h):
     else:
         h.check('reference-rule-without-ranges',
                 'forall(0, n, lambda k: val[k] == (old[k] * 1.05 if old[k] != 0 else 0.05 * 0.05 * 0.1))', **e)
+
+
+# SetInitialPoints itself (member 0 == x0) is not under contract: it juggles numpy 0-d arrays (`asarray(radius).shape`),
+# which the model does not distinguish from python floats; the bounded layer checks the clause on every scenario.
